@@ -216,62 +216,4 @@ theorem noEscape_of_no_pct : ∀ (s : Str), '%' ∉ s → noEscape s = true
 
 theorem iriPathSafe_pct : isSafe Gen.UrlTables.iriPathSafe 0x25 = true := by decide
 
-/-- **`from_environ` round trip, sharp form** (the `_partial` side of known finding F15f): as
-`from_environ_roundtrip`, for every path that contains no `%XX` escape - a literal `%` elsewhere is
-recovered. -/
-theorem from_environ_roundtrip_noEscape {o : UrlOpaque} (laws : HostLaws o) {scheme ha root p : Str}
-    {port : Option Nat} (qs : Str) (b : BaseArg o scheme ha port root) (hp : PathArg p)
-    (hpp : noEscape p = true) (hrp : '%' ∉ root) (hfix : o.hostToAscii ha = some ha) :
-    ∃ b', fromEnviron o (danceEnviron scheme (hostBr ha ++ portText port) (rstripSlash root) p qs) = .ok b' ∧
-      b'.environ.toEnviron = danceEnviron scheme (hostBr ha ++ portText port) (rstripSlash root) p qs := by
-  have hpre := rstripSlash_prefix root
-  have bR : BaseArg o scheme ha port (rstripSlash root) :=
-    ⟨b.scheme, b.host_ne, b.host_chars, b.port, b.bracket, rstripSlash_form b.root_form,
-      fun hm => b.root_chars.1 (hpre.subset hm), fun hm => b.root_chars.2.1 (hpre.subset hm),
-      fun c hc => b.root_chars.2.2 c (hpre.subset hc)⟩
-  have bR' : BaseArg o scheme ha port (rstripSlash root ++ ['/']) := by
-    refine ⟨b.scheme, b.host_ne, b.host_chars, b.port, b.bracket, Or.inr ?_, ?_, ?_, ?_⟩
-    · rcases rstripSlash_form b.root_form with h | h
-      · rw [h]; rfl
-      · cases hr : rstripSlash root with
-        | nil => rfl
-        | cons x xs => rw [hr] at h; simpa using h
-    · intro hm
-      rcases List.mem_append.mp hm with h | h
-      · exact bR.root_chars.1 h
-      · simp at h
-    · intro hm
-      rcases List.mem_append.mp hm with h | h
-      · exact bR.root_chars.2.1 h
-      · simp at h
-    · intro c hc
-      rcases List.mem_append.mp hc with h | h
-      · exact bR.root_chars.2.2 c h
-      · simp at h; subst h; decide
-  have hmk := makeBaseUrl_eq laws bR (rstripSlash_idem root)
-  obtain ⟨e0, he0, e1, e2, e3, e4, e5⟩ := builderEnviron_eq laws qs bR' hp hfix
-  have hs : rstripSlash (rstripSlash root ++ ['/']) = rstripSlash root := by
-    rw [rstripSlash_append]
-    have : rstripSlash ['/'] = [] := by decide
-    rw [if_pos this, rstripSlash_idem]
-  have hrp' : '%' ∉ rstripSlash root := fun hm => hrp (hpre.subset hm)
-  rw [hs, unquoteReplace_quote _ _ hrp'] at e1
-  rw [unquoteReplace_quote_noEscape iriPathSafe_pct _ hpp] at e2
-  have hE : e0 = danceEnviron scheme (hostBr ha ++ portText port) (rstripSlash root) p qs := by
-    cases e0
-    simp only at e1 e2 e3 e4 e5
-    simp only [danceEnviron, e1, e2, e3, e4, e5]
-  rw [builderEnviron_eq_init] at he0
-  have hfe : fromEnviron o (danceEnviron scheme (hostBr ha ++ portText port) (rstripSlash root) p qs)
-      = builderInit o p (some (baseText scheme ha port (rstripSlash root ++ ['/']))) (.text qs) := by
-    unfold fromEnviron danceEnviron
-    simp only [dance_roundtrip', hmk]
-  rw [hfe]
-  cases hb : builderInit o p (some (baseText scheme ha port (rstripSlash root ++ ['/']))) (.text qs) with
-  | error x => rw [hb] at he0; cases he0
-  | ok b' =>
-    rw [hb] at he0
-    simp only [Except.map, Except.ok.injEq] at he0
-    exact ⟨b', rfl, he0.trans hE⟩
-
 end Wz.Url
